@@ -42,6 +42,10 @@ pub struct Shared {
     /// directed race: a point read of exactly this encoded key takes its value, then reports `gate_reached` and waits for
     /// `gate_release` (or 3 s) before it returns -- "a cache-miss load that has read the store but not yet installed the value"
     pub read_gate: Mutex<Option<Vec<u8>>>,
+    /// the same for a member scan of exactly this encoded set key (the scan takes its result, then waits)
+    pub scan_gate: Mutex<Option<Vec<u8>>>,
+    /// while set, physical commits wait (up to 5 s): "the background writer has not got to this batch yet"
+    pub commit_hold: std::sync::atomic::AtomicBool,
     pub gate_reached: std::sync::atomic::AtomicBool,
     pub gate_release: std::sync::atomic::AtomicBool,
 }
@@ -130,6 +134,10 @@ impl WriteBatch for MockBatch {
         self.ops.append(&mut buffer.ops);
     }
     fn commit(self) {
+        {
+            let t0 = std::time::Instant::now();
+            while self.db.0.commit_hold.load(Ordering::SeqCst) && t0.elapsed() < std::time::Duration::from_secs(5) { std::thread::yield_now(); }
+        }
         let mut wide = self.db.0.wide.lock().unwrap();
         let mut sets = self.db.0.sets.lock().unwrap();
         for op in &self.ops {
@@ -167,7 +175,15 @@ impl KvDatabase for MockDb {
     }
     fn scan_members<C: KeyOfSetColumn>(&self, key: &C::Key) -> Self::ScanMemberIterator<C> {
         self.0.scans.fetch_add(1, Ordering::Relaxed);
-        let v: Vec<C::Element> = self.0.sets.lock().unwrap().get(&set_key::<C>(key)).map(|s| s.iter().map(|b| dec::<C::Element>(b)).collect()).unwrap_or_default();
+        let sk = set_key::<C>(key);
+        let v: Vec<C::Element> = self.0.sets.lock().unwrap().get(&sk).map(|s| s.iter().map(|b| dec::<C::Element>(b)).collect()).unwrap_or_default();
+        let gated = self.0.scan_gate.lock().unwrap().as_ref() == Some(&sk);
+        if gated {
+            *self.0.scan_gate.lock().unwrap() = None;       // one scan only
+            self.0.gate_reached.store(true, Ordering::SeqCst);
+            let t0 = std::time::Instant::now();
+            while !self.0.gate_release.load(Ordering::SeqCst) && t0.elapsed() < std::time::Duration::from_secs(5) { std::thread::yield_now(); }
+        }
         v.into_iter()
     }
     fn write_batch(&self) -> MockBatch { MockBatch { ops: Vec::new(), db: self.clone() } }
